@@ -14,7 +14,7 @@ For EACH property, produce ONE change to the library source (files under xknx/, 
  (c) it needs something SPECIFIC to manifest — a particular interleaving or timing, a fault at a particular point, a multi-step sequence of operations, an unusual input, or two cooperating sites — i.e. ordinary everyday use (and the existing tests) would not expose it at once;
  (d) you provide a demonstration: a standalone script demo.py (plain asyncio / plain Python, no pytest needed, may use unittest.mock) that exercises the real xknx code, exits 0 on the unchanged tree and exits non-zero (assertion failure) with your change applied. Run it as: cd <worktree> && PYTHONPATH=<worktree> /venv/bin/python SEED/demo.py . It must be deterministic and fast (< 30 s); use mocks / fake transports / patched clocks instead of real sockets or real sleeping where needed (look at how the repository's own tests under test/ drive the same classes).
 
-Deliverables per property, inside its worktree, in a new directory SEED/: patch.diff (output of `git diff` of your source change, applying cleanly with `git apply` on the unchanged worktree), demo.py, notes.md (which property clause it breaks, what exactly is needed for it to manifest, what you ran and the outcomes: tests with the change, demo with and without the change). Leave the worktree's tracked files UNCHANGED at the end (git checkout -- . after saving patch.diff), with SEED/ as the only untracked content.
+Deliverables per property, inside its worktree, in a new directory SEED/: patch.diff (output of `git diff` of your source change, applying cleanly with `git apply` on the unchanged worktree), demo.py, notes.md (which property clause it breaks, what exactly is needed for it to manifest, what you ran and the outcomes: tests with the change, demo with and without the change). NEVER use `git stash` (the stash is shared between all worktrees of the repository and other people are working in sibling worktrees) - to test without your change use `git apply -R SEED/patch.diff` and `git apply SEED/patch.diff`. Leave the worktree's tracked files UNCHANGED at the end (git checkout -- . after saving patch.diff), with SEED/ as the only untracked content.
 
 Read the relevant source first (the files listed per property are where the behaviour lives), then design the change. Prefer subtle semantic changes in the core mechanism over peripheral ones. If your first idea makes an existing test fail, pick another.
 """)
